@@ -644,7 +644,7 @@ pub fn run(cfg: &Cfg, rep: &mut Report) {
         let nested = w("nested.ssl", format!("inner := import \"{good}\"; b := inner.a").as_bytes());
         let empty = w("empty.ssl", b"");
         let dir = d.to_string_lossy().to_string();
-        for (label, path) in [("good", &good), ("syntax", &syntax), ("types", &types), ("nonutf8", &nonutf), ("fold", &foldfail), ("ret", &retout), ("brk", &brk), ("nested", &nested), ("empty", &empty), ("dir", &dir), ("missing", &format!("{dir}/missing.ssl")), ("nul", &"a\\u{0}b".to_string()), ("emptypath", &String::new())] {
+        for (label, path) in [("good", &good), ("syntax", &syntax), ("types", &types), ("nonutf8", &nonutf), ("fold", &foldfail), ("ret", &retout), ("brk", &brk), ("nested", &nested), ("empty", &empty), ("dir", &dir), ("missing", &format!("{dir}/missing.ssl")), ("nul", &"a\\u{0}b".to_string()), ("emptypath", &String::new()), ("root", &"/".to_string()), ("dot", &".".to_string()), ("dotdot", &"..".to_string()), ("rootfile", &"/missing_file_at_root.ssl".to_string()), ("slashes", &"///".to_string()), ("trailing", &format!("{good}/"))] {
             for form in ["m := import \"{}\"; m", "import \"{}\"", "(x: int) -> any {{ return import \"{}\" }}", "loop {{ import \"{}\"; break }}", "x := (import \"{}\").a"] {
                 let src = form.replace("{{", "{").replace("}}", "}").replace("{}", path);
                 let r = ctx.parse("import", &src, false);
